@@ -5,6 +5,7 @@ PROPERTY_GROUPS = {
     'C06': ['rep', 'timing'],
     'C08': ['timing'],
     'C09': ['timing', 'rep', 'dt'],
+    'C11': ['playready'],
     'C12': ['mps'],
     'C13': ['httprange'],
     'C14': ['events'],
